@@ -160,7 +160,7 @@ pub fn run(tier: Tier, seed: u64, known: &Known) -> PropRun {
         "'well inside the search window' is judged as |eval| < 32767 (necessary condition); the measured maximum is reported under maxima".into(),
         "the side-swapped position need not be a valid position; evaluate is total on boards".into(),
     ];
-    let part = Part { name: "sequences", cases: tier.pick(10_000, 600_000), min_len: 32, max_len: 4000, max_shrink: 4000, threads: threads() };
+    let part = Part { name: "sequences", cases: tier.pick(40_000, 600_000), min_len: 32, max_len: 4000, max_shrink: 4000, threads: threads() };
     let (st, fl) = run_part(&part, seed, known, check);
     run.stats.merge(st);
     run.failure = fl;
